@@ -85,6 +85,11 @@ CLAIMED = {
    text="For every generated program (all tags, include, hyphens) the write calls of a fault-free render are enumerated and each one is failed in turn, in two modes and through both entry points: the call must return a non-nil SourceError carrying the writer's error, never panic, the accepted bytes must be a prefix of the fault-free output, and counting filters show that evaluation stopped. Enumeration over k is exhaustive per program; programs are sampled.",
    note="Trusted: the recording/fault writers and the counting filter. 'Stops' is asserted with one buffered write of slack (the trim writer holds the last write back) and at most one further Write call.",
    ref="DESIGN.md 7.C20"),
+ "C14": dict(
+   technique="property-based testing: metamorphic relation include = inlined content over rapid-generated include graphs laid out in temporary directories with per-file disk/cache/both/empty/missing states",
+   text="Generated include graphs (chains to depth 4, leaves in nested directories, equal base names with distinct content) with every file independently on disk, cache-only, in both with different content, zero bytes on disk, or missing, and include arguments spelled six ways, must render exactly like the template in which every include is replaced recursively by the content the statement selects; missing files, non-string arguments and errors inside included templates must fail the render without output.",
+   note="Trusted: the harness's inliner (disk over cache). Nested includes are only issued from files in the top template's directory, where 'relative to the directory of the path' has one reading; variables assigned inside an included template are not probed afterwards. Temporary directories live under the run's scratch directory and are removed per case.",
+   ref="DESIGN.md 7.C14"),
 }
 
 REASON_PENDING = "check not built yet in this snapshot of /verif (planned: see DESIGN.md section 7); nothing is claimed for it"
